@@ -2110,12 +2110,17 @@ theorem handleEvent_stream_nonsteady {c : Conn} (hl : c.legacy = false) (hs : c.
   unfold handleEvent
   cases w <;> cases r <;> simp only [Bool.false_eq_true, ↓reduceIte]
   · exact ⟨Still.refl c, Or.inl trivial⟩
-  · exact ⟨hr.1.still, hr.2⟩
+  · split
+    · exact ⟨hr.1.still, Or.inl rfl⟩
+    · exact ⟨hr.1.still, hr.2⟩
   · rcases hwe with h | h <;> rw [h]
     · exact ⟨hw, Or.inl rfl⟩
     · exact ⟨hw, Or.inr ⟨_, rfl, trivial⟩⟩
   · rcases hwe with h | h <;> rw [h]
-    · exact ⟨hw.trans hr'.1.still, hr'.2⟩
+    · dsimp only
+      split
+      · exact ⟨hw.trans hr'.1.still, Or.inl rfl⟩
+      · exact ⟨hw.trans hr'.1.still, hr'.2⟩
     · exact ⟨hw, Or.inr ⟨_, rfl, trivial⟩⟩
 
 /-! ### Channel events with writes sealed -/
